@@ -129,6 +129,8 @@ AlphabetShare(K) ==          \* one message object delivered to two running orde
        Msg("ItemInsert", RefId(f), RefBlank, <<>>, FreshItems(fk, 1)),
        Msg("StoryReplace", RefId(f), RefAbsent, <<>>, FreshStories(K, 2)) }
      \cup { m \in SendMsgs(K) : m.story = RefId(f) /\ m.bodyPos = 5 /\ Len(m.body) = 1 /\ m.stok = None }
+     \cup { m \in OtherMsgs("RunningOrderReplace", K) :          \* a whole running order delivered to both objects
+               Len(m.carried) = 3 /\ m.carried[3].tag = "story" /\ m.stok = None }
 
 Alphabet(K) ==
   CASE Theme = "story" -> AlphabetStory(K)
